@@ -1,9 +1,17 @@
 (* C08 driver.  Input lines:
-     P <text>                       -> "<model result>\t<spec result>"
-     X <alphabet> <len> <from> <n>  -> "H <digest> <n ok> <n ok with a non-empty instruction> <n err>"   digest over the model results of the
+     P <text>                       -> "<model result>\t<spec result>\t<index model result>"
+     X <alphabet> <len> <from> <n>  -> "H <digest> <n ok> <n ok with a non-empty instruction> <n err>\tIXDIFF <n texts where the index model differs>"   digest over the model results of the
                                        n texts of length len numbered from.. (base-|alphabet| digits, most
                                        significant first); the harness computes the same digest
      WS                             -> "WS <code points with is_ws, ascending>"
+     B <lead> <trail> <body...>     -> "V<1|0> <line> <kind>"  a member of an error class of C08_errors:
+                                       line = extracted render_bad, V1 iff extracted valid_bad, kind = class_kind (class_of b)
+        body:  T <item> <gap> <token>     item as in the C01 driver (12 comma-separated fields)
+                                          token: U,<s>,<bits> | E,<q>,<s>,<bits>,<B|D|G|H>,<x>,<rest>
+               N <pos> <fault>            pos: L | F,<label>,<gap> | C,<label>,<gap>,<out>,<el>,<er>
+                                          fault: Q,<rest> | B,<pre>,<rest>
+               A                          '!' alone
+               K <k> <word> <more>        more: N | <args>;<argchoices>;<comment>
    result: "OK <n>;<instr>;..." | "ERR <kind> <line>"
    instr:  <line>,<src>,E | <line>,<src>,P,<command>,<args> | <line>,<src>,S,<label>,<output>,<command>,<args>
    optional string: N | S<str>; args: N | A<list> *)
@@ -25,6 +33,10 @@ let fmt_ok l = String.concat ";" (("OK " ^ string_of_int (List.length l)) :: l)
 let fmt_res = function
   | TOk is -> fmt_ok (List.map fmt_instr is)
   | TErr (e, ln, _) -> "ERR " ^ kind_name e ^ " " ^ string_of_int (int_of_n ln)
+let fmt_ires = function
+  | ITOk is -> fmt_ok (List.map fmt_instr is)
+  | ITErr (e, ln, _) -> "ERR " ^ kind_name e ^ " " ^ string_of_int (int_of_n ln)
+  | ITPanic -> "PANIC"
 (* what the C08 theorems predict from the lines alone: one instruction per line, or the error of
    the first unacceptable line *)
 let spec_res text =
@@ -39,6 +51,51 @@ let spec_res text =
           | POk t -> go (k + 1) r ((string_of_int k ^ ",N," ^ fmt_type t) :: acc)
           | PErr _ -> "SPEC-INCONSISTENT"))
   in go 1 ls []
+let p_opt s = if s = "N" then None else Some (str_of_field (String.sub s 1 (String.length s - 1)))
+let p_bits s = if s = "-" then [] else List.init (String.length s) (fun k -> s.[k] = '1')
+let p_nat s = nat_of_int (int_of_string s)
+let p_argch s = match String.split_on_char ':' s with
+  | [g; q; b] -> { a_gap = p_nat g; a_quoted = (q = "1"); a_esc = p_bits b }
+  | _ -> failwith "argch"
+let p_argchs ac = if ac = "-" then [] else List.map p_argch (String.split_on_char ' ' ac)
+let p_comment s = if s = "N" then None else
+  let k = String.index s ':' in
+  Some (p_nat (String.sub s 0 k), str_of_field (String.sub s (k + 1) (String.length s - k - 1)))
+let p_item s = match String.split_on_char ',' s with
+  | [l; o; c; a; lead; trail; lg; el; er; ac; cm; _] ->
+    ({ s_label = p_opt l; s_output = p_opt o; s_command = p_opt c; s_args = list_of_field a },
+     { ch_lead = str_of_field lead; ch_trail = str_of_field trail; ch_label_gap = p_nat lg; ch_eq_left = p_nat el;
+       ch_eq_right = p_nat er; ch_args = p_argchs ac; ch_comment = p_comment cm })
+  | _ -> failwith "item"
+let p_token s = match String.split_on_char ',' s with
+  | ["U"; t; b] -> TUnterminated (str_of_field t, p_bits b)
+  | ["E"; q; t; b; fk; x; rest] ->
+    let f = (match fk with
+      | "B" -> FBad (n_of_int (int_of_string x), str_of_field rest)
+      | "D" -> FDollar (n_of_int (int_of_string x), str_of_field rest)
+      | "G" -> FDangling | "H" -> FDanglingDollar | _ -> failwith "fault") in
+    TEscape (q = "1", str_of_field t, p_bits b, f)
+  | _ -> failwith "token"
+let p_pos s = match String.split_on_char ',' s with
+  | ["L"] -> PLabel
+  | ["F"; l; g] -> PFirst (p_opt l, p_nat g)
+  | ["C"; l; g; o; el; er] -> PCommand (p_opt l, p_nat g, str_of_field o, p_nat el, p_nat er)
+  | _ -> failwith "pos"
+let p_nfault s = match String.split_on_char ',' s with
+  | ["Q"; r] -> NQuote (str_of_field r)
+  | ["B"; p; r] -> NBackslash (str_of_field p, str_of_field r)
+  | _ -> failwith "nfault"
+let p_body = function
+  | ["T"; item; gap; tok] -> let (i, ch) = p_item item in BToken (i, ch, p_nat gap, p_token tok)
+  | ["N"; pos; nf] -> BName (p_pos pos, p_nfault nf)
+  | ["A"] -> BBangAlone
+  | ["K"; k; word; more] ->
+    let m = if more = "N" then None else
+      (match String.split_on_char ';' more with
+       | [a; ac; cm] -> Some ((list_of_field a, p_argchs ac), p_comment cm)
+       | _ -> failwith "more") in
+    BBangUnknown (p_nat k, str_of_field word, m)
+  | _ -> failwith "body"
 let mask = 0x3FFFFFFFFFFFFFFF
 let digest_add h s =
   let h = ref h in
@@ -46,19 +103,27 @@ let digest_add h s =
   ((!h * 31) + 10) land mask
 let () = iter_lines (fun line ->
   match fields line with
-  | ["P"; t] -> let t = str_of_field t in print_endline (fmt_res (parse_text t) ^ "\t" ^ spec_res t)
+  | ["P"; t] -> let t = str_of_field t in print_endline (fmt_res (parse_text t) ^ "\t" ^ spec_res t ^ "\t" ^ fmt_ires (ix_parse_text t))
   | ["X"; alpha; len; from; n] ->
       let alpha = Array.of_list (str_of_field alpha) in
       let b = Array.length alpha in
       let len = int_of_string len and from = int_of_string from and n = int_of_string n in
-      let h = ref 0 and ok = ref 0 and ne = ref 0 and err = ref 0 in
+      let h = ref 0 and ok = ref 0 and ne = ref 0 and err = ref 0 and ixdiff = ref 0 in
       for idx = from to from + n - 1 do
         let rec digits k x acc = if k = 0 then acc else digits (k - 1) (x / b) (alpha.(x mod b) :: acc) in
-        let r = fmt_res (parse_text (digits len idx [])) in
+        let t = digits len idx [] in
+        let r = fmt_res (parse_text t) in
+        if fmt_ires (ix_parse_text t) <> r then incr ixdiff;
         if r.[0] = 'O' then (incr ok; if String.contains r 'S' || String.contains r 'P' then incr ne) else incr err;
         h := digest_add !h r
       done;
-      Printf.printf "H %d %d %d %d\n" !h !ok !ne !err
+      Printf.printf "H %d %d %d %d\tIXDIFF %d\n" !h !ok !ne !err !ixdiff
+  | "B" :: lead :: trail :: body ->
+    (try
+      let b = { b_lead = str_of_field lead; b_body = p_body body; b_trail = str_of_field trail } in
+      Printf.printf "V%s\t%s\t%s\n" (if valid_bad b then "1" else "0") (field_of_str (render_bad b))
+        (kind_name (class_kind (class_of b)))
+    with Failure m -> print_endline ("BADCASE " ^ m))
   | ["WS"] ->
       let b = Buffer.create 256 in
       Buffer.add_string b "WS";
